@@ -17,10 +17,10 @@ CONSTANTS
   Weights = {600, 4000}
   Budgets = {1000, 2000, 2001, 2002, 2003}
   MaxVbs = {2, 400}
-  InSets = {1, 2, 3, 4, 6, 7}
+  InSets = {1, 2, 3, 4, 6, 7, 8, 9}
   Conf0 = 3
   H0 = 100
 INVARIANTS TypeOK FFMonotone FFBelowEnd FFAboveFloor FFCeilAtWidth FFCeilByDeadline FFShape
   PubFeeLeBudget PubRateLeMax PubRateLeCeil PubNoDust PubSomeOutput PubMonotone PubAboveFloor PubFeeExact PubCeilByDeadline RegroupStart RegroupNoDecrease PubRegroupNoDecrease
-  SweepMaxIsConfigured SweepBudgetIsInputs SweepDeadlineIsInputs PubRateLeCfgMax PubFeeLeInputBudget PubTxRateLeCfgMax
+  SweepMaxIsConfigured SweepBudgetIsInputs SweepDeadlineIsInputs SweepExtraIsRequired PubRateLeCfgMax PubFeeLeInputBudget PubTxRateLeCfgMax
 CHECK_DEADLOCK FALSE
